@@ -477,11 +477,23 @@ Fixpoint padding_nonzero (sig : list enc) (args : list arg) : bool :=
   | _, _ => false
   end.
 
+(* raise_arg_to_reg: a register stored as a float must be an integer (`x == x.round()`); by bit pattern *)
+Definition f32_is_integral (bits : Z) : bool :=
+  let e := (bits / 2 ^ 23) mod 256 in
+  let m := bits mod 2 ^ 23 in
+  if (e =? 255) && negb (m =? 0) then false                (* NaN *)
+  else if 150 <=? e then true                             (* |x| >= 2^23, infinities *)
+  else if e <? 127 then (e =? 0) && (m =? 0)               (* |x| < 1: only zero *)
+  else m mod 2 ^ (150 - e) =? 0.
+Definition bad_float_reg (a : arg) : bool :=
+  a_reg a && match a_val a with AFloat b => negb (f32_is_integral b) | _ => false end.
+
 (* what `ins_N(...)` shows after decompilation: arguments without padding, warnings *)
 Definition decode_call (cd : codec) (sig : list enc) (r : encres) : outcome (list arg * list nat) :=
   do x <- decode_args cd sig r;
   let '(args, w, _) := x in
   if negb (length args =? length sig)%nat then Err E_ARGCOUNT
+  else if existsb bad_float_reg args then Err E_REGBIT
   else Ok (drop_padding sig args, w ++ (if padding_nonzero sig args then [W_PADNZ] else [])).
 
 (* ---- metadata strings (C15) ---- *)
@@ -534,21 +546,6 @@ Definition read_name (buf : Z) (input : bytes) : outcome (list Z * list nat * by
   match sjis_dec b with None => Err E_DECODING | Some s => Ok (s, w, rest) end.
 
 End WithSjis.
-
-(* ---- what the property calls "fitting" ---- *)
-Definition arm_range (cd : codec) (size : Z) (signed : bool) (v : Z) : bool :=
-  match find_enc_arm cd size signed with
-  | Some arm => in_range (ea_wbytes arm) (ea_wsigned arm) v
-  | None => false
-  end.
-
-Definition int_fits (cd : codec) (e : enc) (v : Z) : bool :=
-  match e with
-  | EInt _ _ _ true => let '(n, sg, _) := cd_arg0 cd in in_range n sg v
-  | EInt size signed _ false => arm_range cd size signed v
-  | EOff | ETime => let '(n, sg, _) := cd_enc_jump cd in in_range n sg v
-  | _ => false
-  end.
 
 (* ---- how a call `ins_N(args...)` is checked against the signature ----
    abi_to_signature (abi.rs), type_check.rs check_expr_call, const_simplify.rs validate_call_const_args,
